@@ -28,13 +28,20 @@ MANIFEST = {
             "order); a constructed TAP003's starting knowledge covers every host it is told to log into (settings validator modelled); "
             "EXPLOIT.probability<=0 => the chain never SUCCEEDS; PeriodicAgent / DataManipulationAgent return exactly node-application-execute of "
             "the configured application on one node of possible_start_nodes; numpy's binary search equals the model's linear scan on the exact cdf "
-            "and the cdf of non-negative probabilities is sorted. RandomAgent returns the sampled entry of its action map. Tie: enums, dispatch order, comparators, defaults, the "
+            "and the cdf of non-negative probabilities is sorted. A CONSTRUCTED TAP003 (settings validator passed) fed well-formed responses (a failure "
+            "carries data['reason'], a success the login data) NEVER RAISES, for every draw and response sequence of any length (invariant: next = "
+            "successor(current); the knowledge covers every account-change host and ACL router once PLANNING has run, preserved by both password-"
+            "change updates; ACL index in range), hence it reaches every next execution slot without escape clause. RandomAgent returns the sampled entry of its action map. "
+            "The control methods _tap_outcome_handler, _tap_start, _tap_return_handler, _agent_trial_handler and both _progress_kill_chain are TRANSLATED "
+            "statement by statement (Gen/AgentsCtl.lean) and proved equal to the model functions on every state (C19_gen_ctl_*: a meaning-preserving "
+            "rewrite keeps them). Tie: enums, dispatch order, comparators, defaults, the "
             "vector shape, get_action signatures, the empty-history guard, the EXPLOIT trial guard, the source expression of every TAP "
             "action parameter (one table that also defines the model's values), the settings dicts they read, where current_host is "
             "assigned, _select_start_node/_select_target_ip and the writers of actions_concluded are regenerated from the sources "
             "(Gen/Agents.lean, obligations C19_gen_*) + differential rig R-agent feeding the real agents timesteps, prescribed draws and "
             "synthetic responses and comparing the FULL action (name and every parameter) and the kill-chain state with the model at "
-            "every step, plus property oracles on agent.history in the shipped UC2 / UC7 scenarios under random blue actions.",
+            "every step, an implementation-side oracle 'a validated TAP003 with well-formed responses does not raise', plus property oracles on "
+            "agent.history in the shipped UC2 / UC7 scenarios under random blue actions.",
     "note": "C19-specific: numpy's Generator.choice and random.randint/choice/random are modelled, not verified (the never-zero theorem for "
             "the binary search assumes only a total order without NaN, x+0=x, 0/x=0 and a sorted cdf); probabilities in the rig are "
             "dyadic so that float comparison is exact (sums off 1 by multiples of 2^-30); the live-host list a ping scan returns is "
